@@ -88,12 +88,13 @@ Definition row_of (kind : nat) (rt : list row) (kt : list kvrow) (s : step) : op
          end
   end.
 
-(* per-key calls (kv DelCtx): the per-key errors are collected in a BatchError, so only "some error" is comparable *)
+(* per-key calls (kv DelCtx): the per-key errors are collected in a BatchError, so only "some error" is comparable;
+   the count is compared in every case (with an unreachable shard: the twin's per-key DELs of the reachable keys) *)
 Definition res_eq_each (a b : val * err) : bool :=
   match snd a, snd b with
   | ENone, ENone => veq (fst a) (fst b)
   | ENone, _ | _, ENone => false
-  | _, _ => true
+  | _, _ => veq (fst a) (fst b)      (* the count of the keys that could be handled is returned next to the error *)
   end.
 
 (* expected wrapper reply and breaker report, from the raw reply, for row c *)
@@ -106,7 +107,8 @@ Definition step_ok (acc : err -> bool) (kind : nat) (rt : list row) (kt : list k
   match row_of kind rt kt s with
   | Some (c, args, each) =>
       let '(r, told) := expect acc c args (s_raw s) in
-      (if each then res_eq_each r (s_wrap s) else res_eq r (s_wrap s)) && (Nat.eqb (s_told s) 0 || Nat.eqb (s_told s) told) && String.eqb (s_xw s) (s_xr s)
+      (* per-key calls: the sum of the per-key (converted) counts is returned even next to an error *)
+      (if each then res_eq_each (fst (apply_conv repr0 (r_conv c) (fst (s_raw s))), snd r) (s_wrap s) else res_eq r (s_wrap s)) && (Nat.eqb (s_told s) 0 || Nat.eqb (s_told s) told) && String.eqb (s_xw s) (s_xr s)
   | None => false
   end.
 
